@@ -4,7 +4,7 @@
 (* -MaxOff..MaxOff except 0 (hours west of UTC; consecutive offsets may be equal = a change of abbreviation only), and the window *)
 (* of instants to probe.  Instant 0 is the UTC midnight that starts day 0, so the window straddles a     *)
 (* date line for every offset.  A second, wider family (-WHalf..WHalf, WMaxTr; WHalf = 0: none) has fewer   *)
-(* transitions.  SpecSane: the admissible-output relation accepts the reference conversions (Index /     *)
+(* transitions; a third holds zones that cross the date line (24 h jumps).  SpecSane: the admissible-output relation accepts the reference conversions (Index /     *)
 (* IndexDt as moment.py documents them) on every probe of every zone - in particular the intended        *)
 (* IndexDt round-trips every instant and assigns every skipped / repeated local time an offset in use    *)
 (* around the instant.  The input space is written to OUT_FILE.                                          *)
@@ -18,7 +18,13 @@ ZonesOf(lo, hi, m) ==
   UNION {{z \in {[u |-> u, o |-> o] : u \in Untils(lo, hi, n), o \in [1..(n + 1) -> Offs]} : WellFormed(z)}
          : n \in 0..m}
 InputsOf(lo, hi, m) == {[z |-> z, lo |-> lo, hi |-> hi] : z \in ZonesOf(lo, hi, m)}
+\* zones that move across the date line (as Pacific/Apia, Kwajalein did): a jump of 24 h that skips or
+\* repeats a whole local day - day 0 exactly when the transition is at hour 10 / 11 / 12 respectively
+DateLine == {[z |-> [u |-> <<x>>, o |-> p], lo |-> 8, hi |-> 14] :
+               x \in 9..13, p \in {<<10, 0 - 14>>, <<11, 0 - 13>>, <<12, 0 - 12>>,
+                                    <<0 - 14, 10>>, <<0 - 13, 11>>, <<0 - 12, 12>>}}
 Valid == InputsOf(0 - Half, Half, MaxTr) \cup (IF WHalf = 0 THEN {} ELSE InputsOf(0 - WHalf, WHalf, WMaxTr))
+         \cup DateLine
 
 \* TLC computes initial states (and their invariants) on one thread: the inputs are therefore reached in
 \* two steps, a seed state per part of the input space first (the parts are explored in parallel).
